@@ -113,6 +113,7 @@ func (lw *listWorld) wire(u rig.Update, cl model.CmdClassifierType, src, dst *mo
 
 func (lw *listWorld) wireFrom(p *rig.Peer, u rig.Update, cl model.CmdClassifierType, src, dst *model.FeatureAddressType, ack bool) ([]byte, rig.Update, model.MsgCounterType, error) {
 	mc := p.NextCounter()
+	u.PartialFirst = mc%2 == 1 // the order of the two filters of one command carries no meaning
 	var ref *model.MsgCounterType
 	if cl == model.CmdClassifierTypeReply {
 		ref = util.Ptr(model.MsgCounterType(77))
